@@ -828,6 +828,19 @@ func runC14(c *Ctx) {
 			r6.Fail(ci.Pos(), p.FuncName(vt), "recursive coercion against "+describeKey(a), "a child value is coerced against a type that is not the element type / the field's declared type")
 		}
 	}
+
+	// ---- R8 coercion leaves the operation and the schema as it found them
+	r8 := c.Rule("R8", "variable coercion writes no field of a document or schema node", 5)
+	{
+		e := newEffects(p)
+		cs := map[*ssa.Function]bool{}
+		for fn := range p.reachableFrom([]*ssa.Function{vv}, e.dyn) {
+			if p.inModule(fn) {
+				cs[fn] = true
+			}
+		}
+		treeWrites(c, e, cs, r8, "variable coercion")
+	}
 }
 
 func displayKey(v ssa.Value) string {
